@@ -182,6 +182,9 @@ func checkOn(name string, cv stdelliptic.Curve, c opCase) (h.Info, error) {
 		}
 		want := K.OnCurve(x, y)
 		info := h.Info{Class: fmt.Sprintf("oncurve/%v", want), NT: true}
+		if want && (y.Cmp(K.N) >= 0 || x.Cmp(K.N) >= 0) {
+			info.Class = "oncurve/true-coordinate>=n"
+		}
 		if g := cv.IsOnCurve(new(big.Int).Set(x), new(big.Int).Set(y)); g != want {
 			return info, fmt.Errorf("IsOnCurve(%x, %x) = %v, y^2 = x^3+7 says %v", x, y, g, want)
 		}
@@ -346,9 +349,52 @@ func genOp(t *rapid.T) opCase {
 			x, y = new(big.Int), new(big.Int)
 		}
 		_ = ok
+		// coordinates in the thin band [n, p) and right below p: construct y first, x as a cube root
+		if h.Pick(t, "band", 3, 2) == 1 {
+			lo := new(big.Int).Set(K.N)
+			span := new(big.Int).Sub(K.P, lo)
+			var yb *big.Int
+			if rapid.Bool().Draw(t, "nearp") {
+				yb = new(big.Int).Sub(K.P, big.NewInt(int64(rapid.IntRange(1, 64).Draw(t, "dp"))))
+			} else {
+				r := new(big.Int).SetBytes(rapid.SliceOfN(rapid.Byte(), 32, 32).Draw(t, "yb"))
+				yb = r.Mod(r, span).Add(r, lo)
+			}
+			rhs := new(big.Int).Mul(yb, yb)
+			rhs.Sub(rhs, big.NewInt(7)).Mod(rhs, K.P)
+			if xr, ok := cubeRoot(rhs); ok {
+				x, y = xr, yb // a genuine curve point with y >= n
+				if rapid.Bool().Draw(t, "xalt") { // the two other cube roots are also solutions
+					x = new(big.Int).Mod(new(big.Int).Mul(x, omega()), K.P)
+				}
+			} else {
+				y = yb // x from above: off-curve with overwhelming probability
+			}
+		}
 		c.X, c.Y = hexOf(x), hexOf(y)
 	}
 	return c
+}
+
+// cubeRoot returns a cube root of a mod p if one exists (p = 7 mod 9 for secp256k1: a^((p+2)/9)).
+func cubeRoot(a *big.Int) (*big.Int, bool) {
+	e := new(big.Int).Add(K.P, big.NewInt(2))
+	e.Div(e, big.NewInt(9))
+	r := new(big.Int).Exp(a, e, K.P)
+	chk := new(big.Int).Exp(r, big.NewInt(3), K.P)
+	return r, chk.Cmp(new(big.Int).Mod(a, K.P)) == 0
+}
+
+// omega is a primitive cube root of unity mod p.
+func omega() *big.Int {
+	e := new(big.Int).Sub(K.P, big.NewInt(1))
+	e.Div(e, big.NewInt(3))
+	for g := int64(2); ; g++ {
+		w := new(big.Int).Exp(big.NewInt(g), e, K.P)
+		if w.Cmp(big.NewInt(1)) != 0 {
+			return w
+		}
+	}
 }
 
 func TestOps(t *testing.T) {
@@ -356,8 +402,8 @@ func TestOps(t *testing.T) {
 		Prop: "C17", Name: "group-ops", N: 3000,
 		Gen: genOp, Check: checkOp,
 		Require: []string{"add/P+Q", "add/P+P", "add/P+(-P)", "add/P+O", "add/O+O", "double/P", "mult/zero", "mult/n", "mult/>n", "mult/<n", "mult/empty",
-			"basemult/zero", "basemult/n", "basemult/>n", "basemult/leading-zero", "oncurve/true", "oncurve/false", "laws/P+Q", "laws/P+P", "laws/P+(-P)"},
-		Rule: "points given by their discrete log (corners 0,1,2,3,n-1,n-2,(n+-1)/2,n,n+1,2n,2^256-1 and random), pairs random/equal/opposite/identity, scalar byte strings (corners with leading zeros, all-zero of length 0..40, 33-48 bytes, random), IsOnCurve on roots / negated roots / neighbours / (0,0); every operation on both copies of the curve = affine reference with explicit case analysis, identity as (0,0), no panic; group laws on the implementation alone; non-trivial = corner pair/scalar, identity involved, law instance, on-curve query; distinct by case",
+			"basemult/zero", "basemult/n", "basemult/>n", "basemult/leading-zero", "oncurve/true", "oncurve/false", "oncurve/true-coordinate>=n", "laws/P+Q", "laws/P+P", "laws/P+(-P)"},
+		Rule: "points given by their discrete log (corners 0,1,2,3,n-1,n-2,(n+-1)/2,n,n+1,2n,2^256-1 and random), pairs random/equal/opposite/identity, scalar byte strings (corners with leading zeros, all-zero of length 0..40, 33-48 bytes, random), IsOnCurve on roots / negated roots / neighbours / (0,0) and on genuine curve points whose y lies in [n, p) or within 64 of p (x by cube root); every operation on both copies of the curve = affine reference with explicit case analysis, identity as (0,0), no panic; group laws on the implementation alone; non-trivial = corner pair/scalar, identity involved, law instance, on-curve query; distinct by case",
 	})
 }
 
